@@ -29,7 +29,9 @@ static void universe_init(void)
 	memset(X_KEY, 0, sizeof(X_KEY));
 	U_PFX[0] = (struct mrec){.ver = 4, .a = {0x0a000000}, .len = 8, .maxlen = 16, .asn = 100, .src = 0};
 	U_PFX[1] = (struct mrec){.ver = 4, .a = {0x0a010000}, .len = 16, .maxlen = 24, .asn = 200, .src = 0};
-	U_PFX[2] = (struct mrec){.ver = 4, .a = {0xc0a80000}, .len = 16, .maxlen = 16, .asn = 300, .src = 0};
+	/* same prefix and length as record 0: the two share a trie node (with the other source's twin of record 0 in
+	 * front of them), so that sets holding both have adjacent records of ONE source in ONE node's array */
+	U_PFX[2] = (struct mrec){.ver = 4, .a = {0x0a000000}, .len = 8, .maxlen = 8, .asn = 300, .src = 0};
 	U_PFX[3] = (struct mrec){.ver = 6, .a = {0x20010db8, 0, 0, 0}, .len = 32, .maxlen = 48, .asn = 100, .src = 0};
 	U_PFX[4] = (struct mrec){.ver = 6, .a = {0, 0, 0, 0}, .len = 0, .maxlen = 0, .asn = 400, .src = 0};
 	for (int k = 0; k < U_NKEY; k++) {
